@@ -8,6 +8,7 @@ REQUIRED = ["DaeVerif.C08.Props." + n for n in [
     "fixed_ttl_applies", "fixed_ttl_absent", "key_case_insensitive", "key_injective", "base_of_response_key",
     "janitor_time_step", "janitor_keeps", "janitor_evicts_least_recently_used", "heap_selects_oldest",
     "lookup_and_insert_stamp_last_access", "cfg_in_force", "fresh_served", "latest_insert_wins", "removed_is_gone",
+    "latch_is_per_object_and_released_per_key",
 ]]
 
 
